@@ -267,4 +267,8 @@ MUTANTS = [
     Mutant("c10-ali-chunks-from-wrong-slices", "C10", CL, [
         ("        alis, lens_ = chunker(alis.expand(M, -1), slices)\n        assert (lens == lens_).all()", "        alis, lens_ = chunker(alis.expand(M, -1), slices.flip(0))"),
     ]),
+    Mutant("c10-revert-D21-token-only-refs", "C10", CL, [
+        ("        if refs.ndim == 2:\n            # token-only transcripts have no segments to place in a chunk\n            refs, ref_lens = refs.new_empty((M, 0)), slices.new_zeros((M,))\n        else:\n            refs, ref_lens = ref_chunker(refs.expand(M, *refs.shape[1:]), slices)",
+         "        refs, ref_lens = ref_chunker(refs.expand(M, *refs.shape[1:]), slices)"),
+    ]),
 ]
